@@ -331,12 +331,14 @@ def nth_string(length: int, index: int) -> str:
     return "".join(out)
 
 
-def exhaustive_cases(length: int, lo: int, hi: int, per: int, salt: int):
+def exhaustive_cases(length: int, lo: int, hi: int, per: int, salt: int, wmod: int = 1):
     """strings number lo..hi-1 of the given length x widths 2..16 x `per` option triples (rotating through all 40,
     the rotation offset depends on `salt`), span templates and base styles rotating too"""
     for idx in range(lo, hi):
         s = nth_string(length, idx)
         for wi, width in enumerate(range(2, 17)):
+            if (wi + idx) % wmod:
+                continue  # quick tier, longest strings: every wmod-th width, the offset rotating with the string
             for k in range(per):
                 r = (idx * 15 + wi) * per + k + salt
                 j, o, nw = CONFIGS[(r * 7 + r // 40) % 40]
@@ -390,8 +392,8 @@ def case_hash(case) -> int:
 def _job(args):
     kind = args[0]
     if kind == "E":
-        _, length, lo, hi, per, salt = args
-        gen = exhaustive_cases(length, lo, hi, per, salt)
+        _, length, lo, hi, per, salt, wmod = args
+        gen = exhaustive_cases(length, lo, hi, per, salt, wmod)
     else:
         _, seed, lo, hi = args
         gen = random_cases(seed, lo, hi)
@@ -494,18 +496,18 @@ def plan(tier: str, seed: int):
     jobs = []
     salt = 0
     if tier == "quick":
-        ex = [(0, 6), (1, 6), (2, 6), (3, 6), (4, 4), (5, 1)]
+        ex = [(0, 6, 1), (1, 6, 1), (2, 6, 1), (3, 6, 1), (4, 4, 1), (5, 1, 3)]
         n_random = 120000
         chunk = 1200
     else:
-        ex = [(0, 40), (1, 40), (2, 40), (3, 20), (4, 12), (5, 3), (6, 1)]
+        ex = [(0, 40, 1), (1, 40, 1), (2, 40, 1), (3, 20, 1), (4, 12, 1), (5, 3, 1), (6, 1, 1)]
         n_random = 800000
         chunk = 4000
-    for length, per in ex:
+    for length, per, wmod in ex:
         total = len(ALPHA) ** length
-        step = max(1, chunk // (15 * per))
+        step = max(1, chunk * wmod // (15 * per))
         for lo in range(0, total, step):
-            jobs.append(("E", length, lo, min(total, lo + step), per, salt))
+            jobs.append(("E", length, lo, min(total, lo + step), per, salt, wmod))
     for lo in range(0, n_random, chunk):
         jobs.append(("R", seed, lo, min(n_random, lo + chunk)))
     return jobs, ex, n_random
@@ -517,6 +519,8 @@ def run(tier: str = "quick", seed: int = 0) -> dict:
     t0 = time.time()
     jobs, ex, n_random = plan(tier, seed)
     procs = min(16, os.cpu_count() or 2)
+    cells("a")  # build the width table and import rich once, before the workers are forked
+    make_console()
     ctx = mp.get_context("fork")
     with ctx.Pool(procs) as pool:
         res = pool.map(_job, jobs, chunksize=1)
@@ -571,7 +575,7 @@ def run(tier: str = "quick", seed: int = 0) -> dict:
                 "by construction; random cases are deduplicated by hash.  Non-trivial: the string has a non-whitespace "
                 "character and is wider than the width, or contains a newline or tab, or has a non-empty span",
         "bound": "alphabet {a,b,space,\\n,\\t,U+4F60 (2 cells),U+0300 (0 cells)}; exhaustive strings (length, option triples "
-                 f"per string and width): {ex}; {n_random} random strings of length 6..14; <= 4 spans over 9 styles + 3 base "
+                 f"per string and width, every n-th width of 2..16 with a rotating offset): {ex}; {n_random} random strings of length 6..14; <= 4 spans over 9 styles + 3 base "
                  "styles; widths 2..16 exhaustive, random part also 17..200; justify x overflow x no_wrap = 40 triples; "
                  "tab size 8",
         "samples": samples,
